@@ -255,10 +255,20 @@ def body_analytic(case, ctx):
 
     okm = SCALAR_METHODS.get(base["cls"], ALL_METHODS)
 
+    bufs = {}
+
     def call(meth, values):
         """Library call on an array (or point-wise on Python floats) -> float array."""
         if not scalar:
-            return _as_array(getattr(tf, meth)(np.array(values, dtype=float)), len(values))
+            # one persistent buffer per length: successive calls hand the library the SAME array object with new
+            # contents (a caller filling a work array in place); results must depend on the contents only
+            buf = bufs.setdefault(len(values), np.empty(len(values), dtype=float))
+            buf[...] = np.array(values, dtype=float)
+            snap = buf.copy()
+            out = _as_array(getattr(tf, meth)(buf), len(values))
+            if not np.array_equal(buf, snap, equal_nan=True):
+                ctx.fail(f"{name}.{meth}:input-modified", f"{meth} changed its input array in place")
+            return out
         out = []
         for v in values:
             r = getattr(tf, meth)(float(v))
@@ -330,6 +340,10 @@ def body_analytic(case, ctx):
             tol = np.array([_tol(r["G"][j], r["G"][j + 1], r["dy_eff"] if j else r["dy"], r["dist"], j)[0] + CS * EPS * r["Gps"][j] for r in iv])
             ctx.close(got, ref, tol, f"{name}.{meth}", f"{name} {desc} {meth} at r={rs}:")
             _track(ctx, got, ref, tol, meth)
+            if j >= 1 and not scalar and len(rs) >= 2:
+                # the same work array refilled with the radii in reverse order: the answer must follow the contents
+                got_r = call(meth, rs[::-1])
+                ctx.close(got_r, ref[::-1], tol[::-1], f"{name}.{meth}", f"{name} {desc} {meth} on a re-filled array, r={rs[::-1]}:")
 
 
 def _track(ctx, got, ref, tol, what=""):
